@@ -152,7 +152,8 @@ type IntrTx = tokio::sync::mpsc::Sender<interruptible::InterruptSignal>;
 type IntrTx = ();
 
 pub struct Shared {
-    auto: Cell<bool>, // gates are born open: user futures complete at their first poll
+    auto: Cell<u8>, // gates are born open (1: all ok, 2: every third fails, 3: all fail — failures only in try_* runs)
+    is_try: RefCell<Vec<bool>>,
     log: RefCell<Vec<String>>,
     gates: RefCell<BTreeMap<(usize, usize), GateSt>>,
     cur_run: Cell<usize>,
@@ -204,8 +205,10 @@ fn mk_gate(sh: &Rc<Shared>, run: usize, id: usize) -> Gate {
     let auto = sh.auto.get();
     let mut gates = sh.gates.borrow_mut();
     let st = gates.entry((run, id)).or_default();
-    if auto {
-        st.opened = Some(true);
+    if auto > 0 {
+        let may_fail = sh.is_try.borrow().get(run).copied().unwrap_or(false);
+        let ok = !(may_fail && (auto == 3 || (auto == 2 && id % 3 == 0)));
+        st.opened = Some(ok);
     }
     drop(gates);
     Gate { sh: sh.clone(), run, id }
@@ -732,12 +735,13 @@ pub fn session<'g>(
     graph: &'g mut FnGraph<TestFn>,
     cfgs: &[RunCfg],
     coop: bool,
-    auto: bool,
+    auto: u8,
     out: &mut Vec<String>,
     choose: &mut dyn FnMut(&View, usize) -> Option<Vec<Act>>,
 ) {
     let sh = Rc::new(Shared {
         auto: Cell::new(auto),
+        is_try: RefCell::new(cfgs.iter().map(|c| c.is_try()).collect()),
         log: RefCell::new(vec![]),
         gates: RefCell::new(BTreeMap::new()),
         cur_run: Cell::new(0),
@@ -751,7 +755,7 @@ pub fn session<'g>(
             s2.ev(format!("ev {} handout {}", r, f));
         })));
     }
-    out.push(format!("session k={} coop={} auto={}", cfgs.len(), coop as u8, auto as u8));
+    out.push(format!("session k={} coop={} auto={}", cfgs.len(), coop as u8, auto));
     for (i, c) in cfgs.iter().enumerate() {
         out.push(c.line(i));
     }
